@@ -320,6 +320,42 @@ fn cmp_seek() {
     report(r);
 }
 
+struct OneByteSeek(Cursor<Vec<u8>>);
+impl Read for OneByteSeek {
+    fn read(&mut self, buf: &mut [u8]) -> std::io::Result<usize> {
+        let k = buf.len().min(1);
+        self.0.read(&mut buf[..k])
+    }
+}
+impl Seek for OneByteSeek {
+    fn seek(&mut self, p: SeekFrom) -> std::io::Result<u64> {
+        self.0.seek(p)
+    }
+}
+/// sequential reading across every block edge near `c` through a 1-byte-per-read source
+fn one_byte_source_scenario(comp: &[u8], data: &[u8], c: u64) -> Option<String> {
+    let mut rd = CompressionLayerReader::new(Box::new(RawLayerReader::new(OneByteSeek(Cursor::new(comp.to_vec()))))).ok()?;
+    rd.initialize().ok()?;
+    // start a few bytes before the block edge at or before c
+    let edge = (c / BLOCK) * BLOCK;
+    let from = edge.saturating_sub(5);
+    rd.seek(SeekFrom::Start(from)).ok()?;
+    let mut out = Vec::new();
+    let mut buf = [0u8; 4];
+    while out.len() < 16 {
+        match rd.read(&mut buf) {
+            Ok(0) => break,
+            Ok(n) => out.extend_from_slice(&buf[..n]),
+            Err(e) => return Some(format!("through a source giving 1 byte per read, reading across the block edge at {edge} failed at {}: {e}", from + out.len() as u64)),
+        }
+    }
+    let want = &data[from as usize..(from as usize + 16).min(data.len())];
+    if out.len() < want.len() || out[..want.len()] != *want {
+        return Some(format!("through a source giving 1 byte per read, reading from {from} across the block edge at {edge} returned {} bytes ({} identical to the original expected)", out.len(), want.len()));
+    }
+    None
+}
+
 #[test]
 fn cmp_read() {
     // sequential reading through block edges with the solver's buffer size
@@ -330,6 +366,11 @@ fn cmp_read() {
         let total = (k - 1) * BLOCK + last;
         let data = data_of(total, 1);
         let (comp, _) = compress_stream(&data, 1);
+        // the same scenario over a source that hands out ONE byte per read (a decompressor then
+        // stops fetching as soon as a block's output is complete)
+        if let Some(e) = one_byte_source_scenario(&comp, &data, v_u64("c_pos", 0).min(total)) {
+            return Some(e);
+        }
         let mut rd = CompressionLayerReader::new(Box::new(RawLayerReader::new(Cursor::new(comp)))).unwrap();
         rd.initialize().unwrap();
         let c = v_u64("c_pos", 0).min(total);
